@@ -117,13 +117,41 @@ def msg_ts_us(case, cid: int, k: int) -> int:
     for j in range(1, k + 1):
         if (cid, j) not in same:
             t = j
-    return (cid % 7) * 1000 + t * 1_000_000
+    return case.get("t0_s", 0) * 1_000_000 + (cid % 7) * 1000 + t * 1_000_000
 
 
-def build_msg(I, cat: str, cid: int, k: int, ts_us: int, special=None):
+DST_END_S = 25750797      # 2020-10-25 00:59:57 UTC: three seconds before Europe/Berlin falls back from +02:00 to +01:00
+ZONES = ["UTC", "+02:00", "-09:30", "Europe/Berlin", "Asia/Kolkata", "America/St_Johns"]
+
+
+def zone_of(case, cid: int, k: int):
+    """The (aware) time zone the k-th message of a component carries its timestamp in."""
+    spec = case.get("tz", {}).get(str(cid))
+    return spec[k % len(spec)] if spec else "UTC"
+
+
+def tzinfo_of(name: str):
+    from zoneinfo import ZoneInfo
+    if name == "UTC":
+        return timezone.utc
+    if name[0] in "+-":
+        h, m = int(name[1:3]), int(name[4:6])
+        return timezone((1 if name[0] == "+" else -1) * timedelta(hours=h, minutes=m))
+    return ZoneInfo(name)
+
+
+def stamp_us(dt) -> int:
+    """The INSTANT of a delivered timestamp in microseconds since T0 (whatever zone it is expressed in)."""
+    try:
+        return int((dt - T0) / timedelta(microseconds=1))
+    except TypeError:       # naive timestamp: not an instant at all
+        return -1
+
+
+def build_msg(I, cat: str, cid: int, k: int, ts_us: int, special=None, zone="UTC"):
     """A real *Data object whose every field that some metric reads carries msg_value(cid, k, field)."""
     names = metric_names()
-    ts = T0 + timedelta(microseconds=ts_us)
+    ts = (T0 + timedelta(microseconds=ts_us)).astimezone(tzinfo_of(zone))
     vals = {}
     for i, m in enumerate(names):
         attr, idx = field_of(m)
@@ -192,6 +220,7 @@ async def _run(case):
     ncalls = {"components": 0}
     ndata: dict = {}
     probes: dict = {}
+    extra: dict = {}
     # per component: how long the n-th stream-opening call stays pending: [loop iterations, quarter seconds]
     open_delay = {int(c): v for c, v in case.get("open", {}).items()}
 
@@ -265,7 +294,7 @@ async def _run(case):
             self._inner, self._key = inner, key
 
         async def send(self, message):
-            ts = int((message.timestamp - T0) / timedelta(microseconds=1))
+            ts = stamp_us(message.timestamp)
             v = message.value.base_value if message.value is not None else None
             log.append(["enq", self._key, ts, tok(v)])
             await self._inner.send(message)
@@ -332,10 +361,24 @@ async def _run(case):
     source = None
     errors = []
     try:
-        if case.get("mode", "direct") == "actor":
-            req_chan = I.Broadcast(name="requests")
-            req_sender = req_chan.new_sender()
-            actor = I.DataSourcingActor(req_chan.new_receiver(limit=1000), registry)
+        if case.get("mode", "direct") in ("actor", "pipeline"):
+            if case["mode"] == "pipeline":
+                # production wiring: the real _DataPipeline creates the request channel, the actor's request
+                # receiver (with the capacity it configures) and starts the actor
+                from frequenz.sdk.microgrid import _data_pipeline as DP
+                pipe = DP._DataPipeline.__new__(DP._DataPipeline)
+                pipe._data_sourcing_actor = None
+                pipe._channel_registry = registry
+                req_sender = pipe._data_sourcing_request_sender()
+                actor = pipe._data_sourcing_actor.actor
+                import re as _re
+                mm = _re.search(r"limit=(\d+)", repr(actor._request_receiver))
+                extra["req_limit"] = int(mm.group(1)) if mm else -1
+                extra["req_bound"] = int(DP._REQUEST_RECV_BUFFER_SIZE)
+            else:
+                req_chan = I.Broadcast(name="requests")
+                req_sender = req_chan.new_sender()
+                actor = I.DataSourcingActor(req_chan.new_receiver(limit=1000), registry)
             orig_run = actor._run
             nruns = [0]
 
@@ -345,7 +388,8 @@ async def _run(case):
                     log.append(["restart"])
                 await orig_run()
             actor._run = run_tap  # type: ignore[method-assign]
-            actor.start()
+            if case["mode"] == "actor":
+                actor.start()
         else:
             source = I.MicrogridApiSource(registry)
         sent = {cid: 0 for cid in cats}
@@ -373,7 +417,7 @@ async def _run(case):
                 cid = a["cid"]
                 k = sent[cid]
                 sent[cid] += 1
-                m = build_msg(I, cats[cid], cid, k, msg_ts_us(case, cid, k), special_of(case, cid, k))
+                m = build_msg(I, cats[cid], cid, k, msg_ts_us(case, cid, k), special_of(case, cid, k), zone_of(case, cid, k))
                 msg_index[id(m)] = k
                 keep.append(m)   # ids stay unique while the objects are alive
                 log.append(["api", cid, k])
@@ -388,7 +432,7 @@ async def _run(case):
             if cats[cid] in CATS:
                 k = sent[cid]
                 sent[cid] += 1
-                m = build_msg(I, cats[cid], cid, k, msg_ts_us(case, cid, k), special_of(case, cid, k))
+                m = build_msg(I, cats[cid], cid, k, msg_ts_us(case, cid, k), special_of(case, cid, k), zone_of(case, cid, k))
                 msg_index[id(m)] = k
                 keep.append(m)
                 probes[str(cid)] = k
@@ -416,11 +460,11 @@ async def _run(case):
         while len(r) > 0:
             await r.ready()
             s = r.consume()
-            ts = int((s.timestamp - T0) / timedelta(microseconds=1))
+            ts = stamp_us(s.timestamp)
             v = s.value.base_value if s.value is not None else None
             got.append([ts, tok(v)])
         streams[key] = got
-    return {"log": log, "streams": streams, "keys": key_of, "errors": errors, "probes": probes}
+    return {"log": log, "streams": streams, "keys": key_of, "errors": errors, "probes": probes, **extra}
 
 
 keep: list = []
@@ -805,7 +849,12 @@ def gen_case(rng, maxlen=12, unsupported=False):
     comps = rng.sample(POOL, ncomp)
     comps.sort()
     nodata = [(30, rng.choice(OTHER_CATS))] if unsupported and rng.random() < 0.3 else []
-    case = {"mode": "direct" if rng.random() < 0.6 else "actor", "comps": [list(c) for c in comps], "actions": []}
+    case = {"mode": rng.choice(["direct"] * 11 + ["actor"] * 7 + ["pipeline"] * 2), "comps": [list(c) for c in comps], "actions": []}
+    if rng.random() < 0.3:
+        # message timestamps expressed in other (aware) time zones, possibly across the end of DST
+        case["tz"] = {str(c): [rng.choice(ZONES) for _ in range(3)] for c, _ in comps}
+        if rng.random() < 0.5:
+            case["t0_s"] = DST_END_S
     if rng.random() < 0.25:
         case["suspend"] = {"components": rng.randint(1, 3)}
     # few metrics per component so that channels are shared and duplicates are likely
@@ -971,6 +1020,23 @@ def namespace_cases():
     return out
 
 
+def timezone_cases():
+    """Messages stamped in non-UTC aware zones (fixed offsets, DST zones across the fall-back hour): the delivered
+    timestamp must be the same INSTANT."""
+    out = []
+    for cid, cat in POOL[:4]:
+        ms = supported_metrics(cat)
+        S = lambda metric, ns="a", gap=0: {"t": "sub", "cid": cid, "metric": metric, "ns": ns, "start": None, "gap": gap}
+        M = lambda gap=0: {"t": "msg", "cid": cid, "gap": gap}
+        for mode in ("direct", "actor"):
+            for t0 in (0, DST_END_S, 15724800):       # winter, end of DST in Berlin, July
+                out.append({"mode": mode, "comps": [[cid, cat]], "t0_s": t0, "tz": {str(cid): ZONES}, "actions":
+                            [S(ms[0])] + [M(-1 if k % 4 == 0 else 0) for k in range(7)] + [S(ms[1], gap=1)] + [M(0) for _ in range(5)]})
+            out.append({"mode": mode, "comps": [[cid, cat]], "t0_s": DST_END_S, "tz": {str(cid): ["Europe/Berlin"]}, "actions":
+                        [S(ms[0])] + [M(0) for _ in range(8)]})
+    return out
+
+
 def open_boundary_cases():
     """A second new subscription for a not yet streaming component g loop iterations after the first while the
     API takes `its` iterations (or virtual time) to open the stream; duplicates and other components meanwhile."""
@@ -1114,6 +1180,14 @@ def shrink_case(case):
         yield {**case, "mode": "direct"}
     if case.get("suspend"):
         yield {k: v for k, v in case.items() if k != "suspend"}
+    if case.get("tz"):
+        yield {k: v for k, v in case.items() if k not in ("tz", "t0_s")}
+        for c, v in case["tz"].items():
+            if len(v) > 1:
+                for z in v:
+                    yield {**case, "tz": {**case["tz"], c: [z]}}
+    if case.get("mode") == "pipeline":
+        yield {**case, "mode": "actor"}
     if case.get("special"):
         sp = case["special"]
         for i in range(len(sp)):
@@ -1157,6 +1231,10 @@ def labels_of(case, obs):
         out.append("unknown_component")
     if case.get("same_ts"):
         out.append("repeated_timestamp")
+    zones = {z for v in case.get("tz", {}).values() for z in v if z != "UTC"}
+    out += sorted(f"zone={z}" for z in zones)
+    if zones and case.get("t0_s") == DST_END_S:
+        out.append("across_dst_end")
     delivered = {v for got in obs["streams"].values() for _, v in got}
     inv_tok = {v: k for k, v in TOKENS.items()}
     out += sorted({f"delivered_{inv_tok[v]}" for v in delivered if v in inv_tok})
@@ -1247,7 +1325,7 @@ def labels_of(case, obs):
 class DSStream(Stream):
     name = "trace"
     coq_header = HEADER
-    n_quick = 1300
+    n_quick = 1100
     n_fault_quick, n_fault_thorough = 400, 6000
     n_close_quick, n_close_thorough = 300, 5000
     n_thorough = 30000
@@ -1261,6 +1339,7 @@ class DSStream(Stream):
         yield from close_boundary_cases()
         yield from open_boundary_cases()
         yield from special_value_cases()
+        yield from timezone_cases()
         yield from namespace_cases()
         quick = tier == "quick"
         for _ in range(self.n_fault_quick if quick else self.n_fault_thorough):
@@ -1268,7 +1347,7 @@ class DSStream(Stream):
         for _ in range(self.n_close_quick if quick else self.n_close_thorough):
             yield gen_close_case(rng)
         yield from small_scope(self.scope_quick if quick else self.scope_thorough,
-                               gaps=(0, 1, 2, -1))
+                               gaps=(0, 1, -1) if quick else (0, 1, 2, -1))
         for _ in range(self.n_quick if quick else self.n_thorough):
             yield gen_case(rng, 12 if rng.random() < 0.8 else 20, unsupported=rng.random() < 0.2)
 
@@ -1290,7 +1369,7 @@ class DSStream(Stream):
     def key(self, case, obs):
         if sum(len(v) for v in obs["streams"].values()) == 0:
             return None
-        return json.dumps([case["comps"], case["actions"], case.get("mode"), case.get("same_ts"), case.get("faults"), case.get("open"), case.get("special")], sort_keys=True)
+        return json.dumps([case["comps"], case["actions"], case.get("mode"), case.get("same_ts"), case.get("faults"), case.get("open"), case.get("special"), case.get("tz"), case.get("t0_s")], sort_keys=True)
 
     def labels(self, case, obs):
         return labels_of(case, obs)
@@ -1345,3 +1424,107 @@ class TableStream(Stream):
 
     def labels(self, case, obs):
         return [f"cat={case['cat']}", "has_extractor" if obs["value"] is not None else "no_extractor"]
+
+
+# ----------------------------------------------------------------------------- production wiring: request bursts
+PIPE_HEADER = """From Verif Require Import gen.DataSourcing model.DataSourcing.
+(* (capacity of the request receiver the real _DataPipeline created, [(burst size, indices of the requests of the
+   burst that were served, in order)]): the capacity is the translated _REQUEST_RECV_BUFFER_SIZE and every burst,
+   issued back to back before the actor ran, went through a drop-oldest FIFO of that capacity *)
+Definition check (c : Z * list (nat * list nat)) : bool :=
+  let '(cap, bursts) := c in
+  (cap =? request_recv_buffer_size) &&
+  forallb (fun b => list_eqb Nat.eqb (req_burst (Z.to_nat cap) [] (seq 0 (fst b))) (snd b)) bursts.
+"""
+
+
+def pipeline_requests():
+    """Distinct valid requests, as many as needed: every supported metric of four components x namespaces."""
+    out = []
+    for ns in range(12):
+        for cid, cat in POOL[:4]:
+            for m in supported_metrics(cat):
+                out.append({"t": "sub", "cid": cid, "metric": m, "ns": f"n{ns}", "start": None, "gap": 0})
+    return out
+
+
+def expand_pipeline(case):
+    """bursts [n1, n2, ...] -> actions: n_i requests back to back, then everything settles and data flows."""
+    reqs = pipeline_requests()
+    order = list(range(len(reqs)))
+    import random as _r
+    _r.Random(case.get("shuffle", 0)).shuffle(order)
+    acts, bursts, pos = [], [], 0
+    for n in case["bursts"]:
+        idx = order[pos:pos + n]
+        pos += n
+        bursts.append([descr(reqs[i]) for i in idx])
+        for j, i in enumerate(idx):
+            acts.append(dict(reqs[i], gap=(-2 if j == 0 and acts else 0)))
+        for cid, _ in POOL[:4]:
+            acts.append({"t": "msg", "cid": cid, "gap": -2 if cid == POOL[0][0] else 0})
+    return {"mode": "pipeline", "comps": [list(c) for c in POOL[:4]], "actions": acts}, bursts
+
+
+class PipelineStream(Stream):
+    """Bursts of requests through the real `_DataPipeline._data_sourcing_request_sender()` wiring."""
+    name = "pipeline"
+    coq_header = PIPE_HEADER
+
+    def gen(self, rng, tier):
+        sizes = [[1], [50, 51], [116], [500], [499, 3], [501], [30, 540]]
+        if tier != "quick":
+            sizes += [[rng.randint(1, 500)] for _ in range(10)] + [[rng.randint(2, 250), rng.randint(2, 250)] for _ in range(6)] + [[520, 60], [600]]
+        for i, b in enumerate(sizes):
+            yield {"bursts": b, "shuffle": rng.randrange(1000)}
+
+    def run_impl(self, case):
+        full, bursts = expand_pipeline(case)
+        obs = run_case(full)
+        served_keys = [e[2] for e in obs["log"] if e[0] == "add"]
+        served = []
+        for ds in bursts:
+            keys = [obs["keys"][d] for d in ds]
+            served.append([keys.index(k) for k in served_keys if k in keys])
+        # keep the observation small: per-stream sample COUNTS and the oracle's verdict on the full observation
+        bound = obs.get("req_bound", 0)
+        in_domain = {d for ds in bursts if len(ds) <= bound for d in ds}
+        hits = []
+        for h in oracle(full, obs):
+            m = [d for ds in bursts for d in ds if d in h["what"]]
+            if h["what"].startswith(("request:", "stall:", "loss:")) and m and m[0] not in in_domain:
+                continue      # a burst larger than the configured capacity is outside the property's domain
+            hits.append(h)
+        return {"req_limit": obs.get("req_limit", -1), "req_bound": bound, "served": served,
+                "samples": sum(len(v) for v in obs["streams"].values()), "errors": obs["errors"], "oracle": hits[:5]}
+
+    def to_coq(self, case, obs):
+        bs = "; ".join(f"({n}%nat, [{'; '.join(f'{i}%nat' for i in sv)}])" if sv else f"({n}%nat, @nil nat)"
+                       for n, sv in zip(case["bursts"], obs["served"]))
+        return f"({cZ(obs['req_limit'])}, [{bs}])"
+
+    def oracle(self, case, obs):
+        out = list(obs["oracle"])
+        if obs["errors"]:
+            out.append({"what": f"driver: {obs['errors'][0]}", "finding": None})
+        return out
+
+    def key(self, case, obs):
+        return json.dumps(case, sort_keys=True)
+
+    def labels(self, case, obs):
+        out = []
+        for n, sv in zip(case["bursts"], obs["served"]):
+            out.append("burst<=50" if n <= 50 else "burst_51..capacity" if n <= obs["req_bound"] else "burst>capacity")
+            if len(sv) < n:
+                out.append("requests_dropped")
+        return out
+
+    def shrink(self, case):
+        b = case["bursts"]
+        for i in range(len(b)):
+            if len(b) > 1:
+                yield {**case, "bursts": b[:i] + b[i + 1:]}
+            for n in (b[i] // 2, b[i] - 10, b[i] - 1):
+                if 0 < n < b[i]:
+                    yield {**case, "bursts": b[:i] + [n] + b[i + 1:]}
